@@ -51,7 +51,7 @@ class Fam(core.Family):
     procs = 16
 
     def execute(self, inp):
-        w = World(inp.get('parent_before', inp['parent']), inp['thr'], inp['report'], inp['gt'], values=inp.get('values'))
+        w = World(inp.get('parent_before', inp['parent']), inp['thr'], inp['report'], inp['gt'], values=inp.get('values'), link=inp.get('link', 'parent'))
         how = inp.get('how', 'f4')
         if 'parent_before' in inp:
             # the taxonomy is edited between two classifications: walk every lineage first, then re-parent to inp['parent']
@@ -97,7 +97,7 @@ class Sweeps(Fam):
         nmax = 3 if ctx.tier == 'quick' else 4
         self.rule = (f'every forest with <= {nmax} taxa x every threshold assignment over {{none, rank 0, 1, 2}} x every taxon as the '
                      f'genome taxon, swept through distance ranks 0..3 (exact threshold hits incl. 0.0); report flags cycle through '
-                     f'all subsets; entry points classify / GenomeMatch / get_result_item; plus monotonicity over the sweep')
+                     f'all subsets; entry points classify / GenomeMatch / get_result_item; forests linked through `parent` or through `children`; plus monotonicity over the sweep')
         c = 0
         for n in range(1, nmax + 1):
             for p in forests(n):
@@ -105,7 +105,8 @@ class Sweeps(Fam):
                     for t in range(1, n + 1):
                         c += 1
                         rep = [bool((c >> i) & 1) for i in range(n)]
-                        yield dict(op='sweep', parent=p, thr=list(thr), report=rep, gt=[t], ds=[0, 1, 2, 3], via=VIAS[c % 3])
+                        yield dict(op='sweep', parent=p, thr=list(thr), report=rep, gt=[t], ds=[0, 1, 2, 3], via=VIAS[c % 3],
+                                   link=('children' if (c // 3) % 2 else 'parent'))      # the forest is built from either side of the relationship
 
 
 class MultiGenome(Fam):
